@@ -1,6 +1,6 @@
 """C04 - extension-field tower implements the defining polynomial arithmetic."""
 import os, json
-import vlib
+import vlib, fam_consts
 from engine import Run, replay_event
 from fam_tower import TOWER, key_of, class_of, confirm_factory, tower_machine
 
@@ -19,6 +19,7 @@ def subset(src, dst, k, m):
 
 def run(tier):
     run = Run("C04", tier)
+    fam_consts.audit(run, tier)          # the numeric constants this property rests on, from the source text (MC_Consts)
     sc = vlib.scratch()
     run.mc("MC_Tower", timeout=600)
     cases = run.generate("Gen_Tower", "tower")
